@@ -15,7 +15,7 @@ CLAIMS = {
              'reach a normal return; that Matrix._solver checks finiteness and a recomputed residual before returning a computed vector; that backend failures '
              'surface as MatrixError, lenient/step handlers are exact and bounded; that Matrix.solve stores only lhs[~J]=constrain[~J] / lhs[J]+=...; that backend '
              'solvers are reached only through the gate. These are necessary conditions of "certified solution or raise", quantified over all inputs because they '
-             'are path properties of the source; convergence, conditioning and independence of the initial guess are NOT decided.',
+             'are path properties of the source; convergence, conditioning and independence of the initial guess are NOT decided. Also decided: sub-matrix/preconditioner caches are keyed on everything they depend on, and Topology.project never overwrites prescribed constraint values.',
         note='Trusts: CPython ast; name-based identification of residual norms as the operands compared with tol/atol; IEEE semantics of NaN comparisons; '
              'the three gates are the only functions that hand an iterate to the user (confirmed by reading; R14.5 guards the linear side).',
         design='DESIGN.md section 2, C14'),
@@ -25,7 +25,7 @@ CLAIMS = {
              'denote exactly one matrix (incl. 0 <= colidx < ncols and strictly increasing columns per row), that all constructors and pickling go through it, that the numpy/scipy/mkl '
              'backends agree on assemble(data,rowptr,colidx,ncols) and on the export contract and that every consumer unpacks it in that order, constructor arities, the derived operators '
              'and caches of the base class, and the one-based index discipline of the MKL backend (which cannot be executed in this sandbox). Necessary conditions of "faithful to the data / '
-             'ambiguous input rejected"; numerical agreement of products, transposes and sub-matrices is NOT decided.',
+             'ambiguous input rejected"; numerical agreement of products, transposes and sub-matrices is NOT decided. Also decided: NumpyMatrix.__matmul__ contracts the first operand axis for operands of any dimension, and COO row compression computes index differences in a signed type so that unsorted or out-of-range rows are rejected for every integer dtype.',
         note='Trusts: CPython ast; the idiom table for guards (all(e), numpy.all(e), e.all(); shifted-slice and numpy.diff adjacent comparisons); role names of index arrays '
              '(colidx/indices/cols vs rowptr/indptr). Unclassifiable constructs in the anchor give ANALYSIS-ERROR.',
         design='DESIGN.md section 2, C15'),
@@ -52,7 +52,7 @@ CLAIMS = {
              'exception: r+b open, exclusive lock on that handle before any load/dump/seek and around the computation; truncated entries are survived and lead to recomputation; seek(0) between a failed '
              'load and the rewrite; never a rewrite or recomputation after a hit; computation inside disable() with a recorded log that is stored and replayed; exceptions propagate without a store; the '
              'entry name depends on module, qualname, version and every canonical argument; recursion bookkeeping (monotone exhausted flag, trimmed history, resume index, stop marker, layout agreement). '
-             'This is the shape that crash tolerance and mutual exclusion need for every history; what the OS guarantees for flock and partial writes and equality of unpickled values are NOT decided.',
+             'This is the shape that crash tolerance and mutual exclusion need for every history; what the OS guarantees for flock and partial writes and equality of unpickled values are NOT decided. Also decided: every iteration-method class that can be passed to the memoised System.solve is hashable and its hash covers its constructor state.',
         note='Trusts: CPython ast; that a truncated pickle raises EOFError or UnpicklingError (CPython behaviour); flock semantics.',
         design='DESIGN.md section 2, C18'),
     'C20': dict(
@@ -87,7 +87,7 @@ CLAIMS = {
         text='PARTIAL. Decides protocol conformance of the rewrite system only: every override and every dynamic call site of the swap-rule protocol declared in evaluable.Array (and of _simplified, _derivative, '
              '_compile_with_out, ...) agrees in arity with the declaration, no _take/_takediag/_inflate rule hands its own axis parameters to the user-facing helper of the same name (different axis convention), and the '
              'fixed-point driver keeps its shape/dtype assertion, loop detection and memoisation. A mismatch is an exception or a transposed result the moment that pair of node kinds meets at depth >= 3, so the clauses are '
-             'necessary; termination and value preservation of the ~20 rules per class are NOT decided - no static argument in reach bounds the values over the unbounded term algebra.',
+             'necessary; termination and value preservation of the ~20 rules per class are NOT decided - no static argument in reach bounds the values over the unbounded term algebra. Also decided (R01.5): binary swap rules that merge two nodes equate the control operand they keep (Choose.index, Inflate.dofmap, LoopSum.index) and a foreign operand enters a loop body only if it is independent of that loop index (capture avoidance).',
         note='Trusts: CPython ast; name-based MRO of the class model; the table of public-vs-protocol helper pairs confirmed by reading.',
         design='DESIGN.md section 2, C01'),
     'C04': dict(
@@ -95,7 +95,7 @@ CLAIMS = {
         text='PARTIAL. Decides the derivative tables: each Pointwise.deriv entry equals, in polynomial normal form, the textbook partial derivative of the NumPy function the class emits (and the class emits the function its '
              'name promises); the einsum patterns and signs of Multiply, Power, Inverse, Determinant, Product, Legendre, TransformCoords, Polyval and the chain rule equal the matrix-calculus patterns up to renaming; zero '
              'rules, memo and shape assertion of the driver; linear structural nodes act on the right axis of the derivative. A wrong table entry is a wrong Jacobian for every input, also where the suite\'s symmetric test '
-             'matrices hide it; chain-rule plumbing through loops/Custom/user operations and numerical accuracy are NOT decided.',
+             'matrices hide it; chain-rule plumbing through loops/Custom/user operations and numerical accuracy are NOT decided. Terms of one product/power rule must be summed in one expression per branch, and derivatives accumulated over arguments must be added, not overwritten.',
         note='Trusts: CPython ast; oracles/calculus.json (textbook calculus); the normal-form algebra is one-sided: an unforeseen but correct spelling (a trig identity) would be reported, accepted alternatives are listed in the oracle.',
         design='DESIGN.md section 2, C04'),
     'C02': dict(
@@ -104,7 +104,7 @@ CLAIMS = {
              'mode may be assign; the in-place protocol of another node is entered only through the builder whose escape test keeps dependents/block-order/NotImplemented in order with the copy/iadd fallback; every '
              'expression/statement class of the printer covers all its fields (variables, printing, emptiness, rerun filter) and parenthesises operands; every compiled field is an announced dependency; '
              '_compile_expression arities match. Each clause is necessary for a faithful translation of every DAG shape (a missing zero fill survives the suite because numpy.empty often returns zero pages); that loop '
-             'grouping, block ids, Assemble index transposition and the numpy-specific rewrites compute the right values is NOT decided.',
+             'grouping, block ids, Assemble index transposition and the numpy-specific rewrites compute the right values is NOT decided. Further clauses: every Array-typed constructor field is an announced dependency; dependency edges are recorded before the compiled-cache lookup; shared allocation/lock pairing under parallel compilation; loop nodes decline in-place compilation when the destination is defined later; einsum labels and axis positions are kind-typed and never mixed in the fusion rules.',
         note='Trusts: CPython ast; the table of owned-storage constructors and view constructors (transpose = full cover, einsum diagonal = partial, slices = loop partition) confirmed by reading.',
         design='DESIGN.md section 2, C02'),
     'C03': dict(
@@ -112,7 +112,7 @@ CLAIMS = {
         text='PARTIAL. Decides the hidden-state protocols: no emitted in-place write can reach an argument, constant or cached value and the rerun filter reaches every nested statement; the constant-intermediate cache '
              'collects exactly the argument-free Array nodes, freezes them read-only, declares them global with first_run, filters the rerun body before the freeze and clears first_run last; isconstant/arguments '
              'overrides are conservative; arguments are ingested by asarray with a shape test; solver.System memo slots hold a matrix only under is_constant_matrix. Violating any of them makes a later call depend on an '
-             'earlier one for some call sequence; aliasing of returned arrays through zero-stride views and the memo tables of function.Basis are NOT decided.',
+             'earlier one for some call sequence; aliasing of returned arrays through zero-stride views and the memo tables of function.Basis are NOT decided. R03.6 (cached intermediates must be read-only before a view of them can exist) is violated on the pinned commit and reported as known finding F12.',
         note='Trusts: CPython ast; NumPy semantics of setflags(write=False) and asarray.',
         design='DESIGN.md section 2, C03'),
     'C06': dict(
@@ -120,7 +120,7 @@ CLAIMS = {
         text='PARTIAL. Decides the consumers of inferred integer ranges: at every return that drops an InRange/Mod/Minimum/Maximum/NormDim node (or licenses singular_like, index-ness, non-negative exponents, uniform '
              'constants) the path condition implies, by transitive closure with strictness, the inequality that makes the dropped node the identity; the elementary transfer functions equal interval arithmetic; every '
              'compiled field is an announced dependency; isconstant/arguments overrides are conservative. Soundness of the ~25 non-elementary transfer functions, shape/dtype of every node class and function.Array '
-             'metadata are NOT decided (they need evaluation of the functions, concretely or symbolically - another technique family).',
+             'metadata are NOT decided (they need evaluation of the functions, concretely or symbolically - another technique family). The table of elementary transfer functions includes the index-producing nodes (SearchSorted, ArgSort, Find, Range); announced argument tables of the function-level wrappers are computed from the parsed replacement pairs.',
         note='Trusts: CPython ast; the meaning of each dropped node (index in [0,length), a mod b = a, ...); guards written in other algebraic spellings than comparisons of lo/hi terms are not understood and would be reported.',
         design='DESIGN.md section 2, C06'),
     'C05': dict(
@@ -136,7 +136,7 @@ CLAIMS = {
         text='PARTIAL. Decides dispatch-table agreement for the 42 table-shaped of 81 NumPy registrations: the chain numpy.f -> function-level implementation -> evaluable wrapper/constructor -> emitted NumPy expression has, '
              'as a normal form over the operands (separately for complex operands where the wrapper branches on dtype), the meaning NumPy documents for f; min_dtype/force_dtype realise NumPy\'s result kind class; comparisons '
              'reject complex, logical operations decline non-booleans; the NEP-13/18 hooks consult the table; operators come from NumPy\'s mixin. A wrong table entry is wrong at every point of every sample; broadcasting, '
-             'indexing, reshape, einsum, linear algebra and lowering with point axes (the composite implementations) are NOT decided.',
+             'indexing, reshape, einsum, linear algebra and lowering with point axes (the composite implementations) are NOT decided. Also decided: linear-algebra wrappers announce an inexact kind; the dispatch layer never writes into caller-owned arrays; slice bounds are normalised with Python semantics in both layers; dot and matmul compare the contracted lengths before their broadcasting product.',
         note='Trusts: CPython ast; oracles/numpy_api.json (documented NumPy semantics and result kinds); the normal-form algebra (one-sided: unforeseen correct spellings would be reported).',
         design='DESIGN.md section 2, C07'),
     'C09': dict(
@@ -144,7 +144,7 @@ CLAIMS = {
         text='PARTIAL (narrow). Decides that all members of the product sample decompose the element index with the same divisor and stride points by the same factor, that all members of the union sample split and shift by '
              'the first part\'s element/point counts, that _Integral.lower takes weights, lower args and the reduction from one loop index and contracts weights with the integrand over the point axes, and that every concrete '
              'sample either implements the four accessors or integrates by delegation. Disagreement between siblings makes integrate != sum(w f) for nested samples; Gauss tables, exactness degrees, point containment and '
-             'trimmed mosaics are numerical tables and are NOT decided.',
+             'trimmed mosaics are numerical tables and are NOT decided. Also decided: a composite sample never hands its raw element index to a component accessor, and transformed points scale weights by the absolute determinant.',
         note='Trusts: CPython ast; the member names of sample._Mul/_Add/_Integral as read today.',
         design='DESIGN.md section 2, C09'),
 }
